@@ -146,11 +146,11 @@ Qed.
 (* the business COMMIT fails: neither the effect nor the record, the fence transaction and its lock
    are leaked, and the next delivery for the branch times out on the lock without changing anything *)
 Lemma business_commit_fault_example :
-  let h := [DDrv 1 Prepare (Some 5%nat); DDrv 1 Prepare None; DApi 1 Rollback None] in
+  let h := [DDrv 1 Prepare (Some 6%nat); DDrv 1 Prepare None; DApi 1 Rollback None] in
   dhist_supported dinit h = true /\
-  run_dhist dinit [DDrv 1 Prepare (Some 5%nat)] = ([(1, mkC None (0, 0, 0))], [1]) /\
+  run_dhist dinit [DDrv 1 Prepare (Some 6%nat)] = ([(1, mkC None (0, 0, 0))], [1]) /\
   get (fst (run_dhist dinit h)) 1 = mkC None (0, 0, 0) /\
-  t_err (fst (dop_run (run_dhist dinit [DDrv 1 Prepare (Some 5%nat)]) (DDrv 1 Prepare None))) = ELocked.
+  t_err (fst (dop_run (run_dhist dinit [DDrv 1 Prepare (Some 6%nat)]) (DDrv 1 Prepare None))) = ELocked.
 Proof. vm_compute. repeat split. Qed.
 
 (* inside the findings the property fails in the model as it does on the code *)
@@ -162,6 +162,6 @@ Theorem drv_refuted :
   (let h := [DDrv 1 Rollback None] in
    dhist_supported dinit h = false /\ get (fst (run_dhist dinit h)) 1 = mkC (Some Suspended) (0, 0, 1)) /\
   (* a failure of the second COMMIT leaves the effect without the record *)
-  (let h := [DDrv 1 Prepare (Some 6%nat)] in
+  (let h := [DDrv 1 Prepare (Some 7%nat)] in
    dhist_supported dinit h = false /\ get (fst (run_dhist dinit h)) 1 = mkC None (1, 0, 0)).
 Proof. vm_compute. repeat split. Qed.
